@@ -187,10 +187,21 @@ def finish(pid, tier, stats, t0, rule, assumptions, exhaustive=True, extra_cov=N
     if stats.executions and len(stats.sigs) < min_sigs:
         print(f'machinery error: vacuous exploration ({len(stats.sigs)} distinct signatures)')
         return 2
+    rdir = os.path.join(VERIF, 'replays')
+    if os.path.isdir(rdir):
+        for fn in os.listdir(rdir):
+            if fn.startswith(pid + '-'):
+                os.unlink(os.path.join(rdir, fn))
     if new:
         new.sort(key=lambda v: len(repr(v['replay'])))   # simplest counterexample first
-        os.makedirs(os.path.join(VERIF, 'replays'), exist_ok=True)
-        for i, v in enumerate(new[:5]):
+        os.makedirs(rdir, exist_ok=True)
+        picked, kinds = [], set()
+        for v in new:                                    # one per distinct kind first
+            if v['kind'] not in kinds:
+                kinds.add(v['kind'])
+                picked.append(v)
+        picked += [v for v in new if v not in picked]
+        for i, v in enumerate(picked[:6]):
             path = os.path.join(VERIF, 'replays', f'{pid}-{i}.json')
             with open(path, 'w') as f:
                 json.dump({'property': pid, 'kind': v['kind'], 'detail': v['detail'],
